@@ -65,13 +65,15 @@ static std::vector<std::string> split(const std::string& s, char sep)
 // exact-size heap copy (never a shared buffer: ASan red zones directly behind every chunk)
 struct Exact
 {
-    std::unique_ptr<std::uint8_t[]> p; size_t n;
-    Exact(const std::uint8_t* src, size_t len) : p(new std::uint8_t[len ? len : 1]), n(len) { if (len) std::memcpy(p.get(), src, len); }
-    const std::uint8_t* data() const { return p.get(); }
-    const char* cdata() const { return reinterpret_cast<const char*>(p.get()); }
+    // `lead` = misalignment of the first byte from the (16-byte aligned) start of the block; the block still ends with the data
+    std::unique_ptr<std::uint8_t[]> p; size_t n; size_t lead;
+    Exact(const std::uint8_t* src, size_t len, size_t lead_ = 0) : p(new std::uint8_t[len + lead_ ? len + lead_ : 1]), n(len), lead(lead_)
+    { if (len) std::memcpy(p.get() + lead, src, len); }
+    const std::uint8_t* data() const { return p.get() + lead; }
+    const char* cdata() const { return reinterpret_cast<const char*>(p.get() + lead); }
     tlx::string_view sv() const { return tlx::string_view(cdata(), n); }
     std::string str() const { return std::string(cdata(), n); }
-    bool has_nul() const { return n != 0 && std::memchr(p.get(), 0, n) != nullptr; }
+    bool has_nul() const { return n != 0 && std::memchr(data(), 0, n) != nullptr; }
 };
 
 // SplitMix64: which overload / argument type each call uses is derived from the case's variant seed
@@ -96,7 +98,7 @@ struct Rng
 //   implicit copy construction / copy assignment / move construction of a half-fed object
 // seed == 0 keeps the fixed behaviour "default constructor + process(ptr, size)".
 template <typename Hsh>
-static std::unique_ptr<Hsh> feed(const std::vector<Exact>& chunks, std::uint64_t seed)
+static std::unique_ptr<Hsh> feed(const std::vector<Exact>& chunks, std::uint64_t seed, std::unique_ptr<Hsh>* twin = nullptr)
 {
     Rng r(seed * 0x2545F4914F6CDD1DULL + 12345);
     std::unique_ptr<Hsh> h;
@@ -106,8 +108,14 @@ static std::unique_ptr<Hsh> feed(const std::vector<Exact>& chunks, std::uint64_t
     switch (c)
     {
     case 0: h.reset(new Hsh()); break;
-    case 1: h.reset(new Hsh(chunks[0].data(), static_cast<std::uint32_t>(chunks[0].n))); start = 1; break;
-    case 2: h.reset(new Hsh(chunks[0].sv())); start = 1; break;
+    case 1:
+        if (chunks[0].n == 0 && r.below(2)) h.reset(new Hsh(static_cast<const void*>(nullptr), 0));
+        else h.reset(new Hsh(chunks[0].data(), static_cast<std::uint32_t>(chunks[0].n)));
+        start = 1; break;
+    case 2:
+        if (chunks[0].n == 0 && r.below(2)) h.reset(new Hsh(tlx::string_view()));
+        else h.reset(new Hsh(chunks[0].sv()));
+        start = 1; break;
     case 3: { std::string s = chunks[0].str(); h.reset(new Hsh(s)); start = 1; break; }
     case 4: { std::string_view v(chunks[0].cdata(), chunks[0].n); h.reset(new Hsh(v)); start = 1; break; }
     default: { std::string s = chunks[0].str(); h.reset(new Hsh(s.c_str())); start = 1; break; }
@@ -119,10 +127,16 @@ static std::unique_ptr<Hsh> feed(const std::vector<Exact>& chunks, std::uint64_t
         {
             // continue on a copy of the half-fed object
             unsigned k = r.below(3);
-            if (k == 0) h.reset(new Hsh(*h));                                                       // copy construction
+            if (k == 0 && twin != nullptr && !*twin)
+            {
+                // copy construction, and BOTH objects go on: the original (kept as the twin) receives the same remaining chunks
+                std::unique_ptr<Hsh> c2(new Hsh(*h)); *twin = std::move(h); h = std::move(c2);
+            }
+            else if (k == 0) h.reset(new Hsh(*h));                                                  // copy construction
             else if (k == 1) { std::unique_ptr<Hsh> o(new Hsh("some other message")); *o = *h; h = std::move(o); }  // copy assignment
             else h.reset(new Hsh(std::move(*h)));                                                    // move construction
         }
+        if (twin != nullptr && *twin) (*twin)->process(ck.data(), static_cast<std::uint32_t>(ck.n));
         unsigned a = seed == 0 ? 0 : r.below(7);
         if (a == 5 && ck.has_nul()) a = 0;
         if (a == 6 && ck.n != 0) a = 1;
@@ -141,17 +155,20 @@ static std::unique_ptr<Hsh> feed(const std::vector<Exact>& chunks, std::uint64_t
     return h;
 }
 
-static std::vector<Exact> cut(const Bytes& msg, const std::vector<size_t>& sizes)
+// every chunk in its own exact-size block; with a variant seed the chunk starts 0..7 bytes off the aligned block start
+// (process() must not assume any alignment of its input, in particular on the compress-straight-from-the-input path)
+static std::vector<Exact> cut(const Bytes& msg, const std::vector<size_t>& sizes, std::uint64_t seed = 0)
 {
     std::vector<Exact> out; size_t off = 0;
-    for (size_t s : sizes) { out.emplace_back(msg.data() + off, s); off += s; }
+    Rng r(seed ^ 0xA5A5A5A5ULL);
+    for (size_t s : sizes) { out.emplace_back(msg.data() + off, s, seed == 0 ? 0 : r.below(8)); off += s; }
     return out;
 }
 
 template <typename Hsh>
 static std::string raw_digest(const Bytes& msg, const std::vector<size_t>& sizes, std::uint64_t seed)
 {
-    auto cks = cut(msg, sizes);
+    auto cks = cut(msg, sizes, seed);
     std::string d = feed<Hsh>(cks, seed)->digest();
     return tohex(d.data(), d.size());
 }
@@ -179,15 +196,28 @@ static void digest_case(std::ostream& os, const char* name, const Bytes& msg, co
     std::uint64_t k = 0;
     for (const auto& sizes : chunkings)
     {
-        auto cks = cut(msg, sizes);
         std::uint64_t sd = variant == 0 ? 0 : variant * 1000 + 10 * (++k);
-        std::string raw = feed<Hsh>(cks, sd)->digest();
-        // finalize(void*) into an exact-size block must give the same bytes as digest()
-        std::unique_ptr<std::uint8_t[]> fin(new std::uint8_t[Hsh::kDigestLength]);
-        feed<Hsh>(cks, sd + 1)->finalize(fin.get());
+        auto cks = cut(msg, sizes, sd);
+        std::unique_ptr<Hsh> twin;
+        std::unique_ptr<Hsh> obj = feed<Hsh>(cks, sd, &twin);
+        std::string raw = obj->digest();
+        // finalize(void*) into an exact-size block (misaligned by sd % 8) must give the same bytes as digest()
+        size_t flead = static_cast<size_t>(sd % 8);
+        std::unique_ptr<std::uint8_t[]> finb(new std::uint8_t[Hsh::kDigestLength + flead]);
+        std::uint8_t* fin = finb.get() + flead;
+        feed<Hsh>(cks, sd + 1)->finalize(fin);
         os << ':' << tohex(raw.data(), raw.size());
-        if (raw.size() != Hsh::kDigestLength || std::memcmp(fin.get(), raw.data(), raw.size()) != 0)
-            os << "!=finalize:" << tohex(fin.get(), Hsh::kDigestLength);
+        if (raw.size() != Hsh::kDigestLength || std::memcmp(fin, raw.data(), raw.size()) != 0)
+            os << "!=finalize:" << tohex(fin, Hsh::kDigestLength);
+        // a copy made mid-stream and its original, both fed the same remaining chunks, agree
+        if (twin) { std::string t2 = twin->digest(); if (t2 != raw) os << "!=twin:" << tohex(t2.data(), t2.size()); }
+        // use after finalisation is outside the property (the headers do not define it): exercised for memory errors only,
+        // results ignored
+        if (variant != 0)
+        {
+            obj->process(whole.data(), static_cast<std::uint32_t>(whole.n));
+            (void)obj->digest_hex(); (void)obj->digest(); obj->process(whole.sv()); (void)obj->digest_hex_uc();
+        }
         os << ',' << feed<Hsh>(cks, sd + 2)->digest_hex() << ',' << feed<Hsh>(cks, sd + 3)->digest_hex_uc();
     }
 }
@@ -223,7 +253,7 @@ template <typename Hsh, typename FP>
 static void long_case(std::ostream& os, const char* name, const Bytes& msg, const std::vector<size_t>& sizes, std::uint64_t seed, FP hex_ps)
 {
     std::string raw;
-    { auto cks = cut(msg, sizes); raw = feed<Hsh>(cks, seed)->digest_hex(); }
+    { auto cks = cut(msg, sizes, seed); raw = feed<Hsh>(cks, seed)->digest_hex(); }
     os << ' ' << name << '=' << raw;
     std::string one = hex_ps(msg.data(), static_cast<std::uint32_t>(msg.size()));
     if (one != raw) os << "!=oneshot:" << one;
@@ -334,6 +364,13 @@ int main(int argc, char** argv)
             std::uint64_t s = p;
 #endif
             std::uint64_t d = tlx::siphash(k, m, msg.size());
+            if (msg.empty())
+            {
+                // an empty message may come as a null pointer (e.g. a default-constructed string_view)
+                std::uint64_t d0 = tlx::siphash(k, static_cast<const std::uint8_t*>(nullptr), 0);
+                std::uint64_t p0 = tlx::siphash_plain(k, static_cast<const std::uint8_t*>(nullptr), 0);
+                if (d0 != d || p0 != p) d = ~d;
+            }
             // ref = the harness's own straight-from-the-paper SipHash-2-4 (siphash_ref.hpp): validated here against the extracted
             // Coq spec, it is the reference of the huge-message and thread stages
             os << "P plain=" << hex64(p) << " sse2=" << hex64(s) << " disp=" << hex64(d) << " ref=" << hex64(c14ref::ref_siphash24(k, m, msg.size()));
@@ -352,8 +389,9 @@ int main(int argc, char** argv)
                 auto arr = [&](auto a) { std::memcpy(a.data(), m, a.size()); return hex64(tlx::siphash(a)); };
                 switch (msg.size())
                 {
-                case 1: tp = arr(std::array<std::uint8_t, 1>()); break;
-                case 2: tp = arr(std::array<std::uint8_t, 2>()); break;
+                case 1: { tp = arr(std::array<std::uint8_t, 1>()); char cv; std::memcpy(&cv, m, 1); std::uint8_t uv = m[0];
+                          std::string t2 = hex64(tlx::siphash(cv)), t3 = hex64(tlx::siphash(uv)); if (t2 != tp || t3 != tp) tp += "!=" + t2 + "/" + t3; break; }
+                case 2: { tp = arr(std::array<std::uint8_t, 2>()); std::uint16_t v; std::memcpy(&v, m, 2); std::string t2 = hex64(tlx::siphash(v)); if (t2 != tp) tp += "!=" + t2; break; }
                 case 3: tp = arr(std::array<std::uint8_t, 3>()); break;
                 case 4: { tp = arr(std::array<std::uint8_t, 4>()); std::uint32_t v; std::memcpy(&v, m, 4); std::string t2 = hex64(tlx::siphash(v)); if (t2 != tp) tp += "!=" + t2; break; }
                 case 8: { tp = arr(std::array<std::uint8_t, 8>()); std::uint64_t v; std::memcpy(&v, m, 8); std::string t2 = hex64(tlx::siphash(v)); if (t2 != tp) tp += "!=" + t2; break; }
